@@ -526,6 +526,52 @@ theorem confidentiality_partial (C : CbcAlg) (M : MacAlg) (hC : C.Lawful) (hM : 
             rw [aesPayload_congr _ _ (by rw [hC.dec_len, hC.dec_len]) this]
 
 
+
+theorem set_dec_ivEnc (st : AesSt) (v : Bytes) : (st.set Gen.cbcDecIvSlot v).ivEnc = st.ivEnc := rfl
+
+/-- `aes_cipher::decrypt` never writes the encryption IV, whatever the cipher text and on every path -/
+theorem decrypt_keeps_ivEnc (C : CbcAlg) (M : MacAlg) (ck mk : Bytes) (st : AesSt) (c : Bytes) :
+    (aesDecrypt C M ck mk st c).2.ivEnc = st.ivEnc := by
+  unfold aesDecrypt
+  simp only []
+  repeat' split
+  all_goals first
+    | rfl
+    | exact set_dec_ivEnc _ _
+
+/-- `aes_cipher::encrypt` reads the state of the cbc object only through the encryption IV -/
+theorem encrypt_reads_ivEnc_only (C : CbcAlg) (M : MacAlg) (ck mk : Bytes) (st st' : AesSt) (p : Bytes)
+    (h : st.ivEnc = st'.ivEnc) :
+    (aesEncrypt C M ck mk st p).1 = (aesEncrypt C M ck mk st' p).1 ∧
+    (aesEncrypt C M ck mk st p).2.ivEnc = (aesEncrypt C M ck mk st' p).2.ivEnc := by
+  unfold aesEncrypt
+  simp only [get_enc_slot, set_enc_slot, h]
+  repeat' split
+  all_goals simp_all
+
+/-- **Bookkeeping behind "an encrypting back-end does not reveal whether two payloads are equal".**
+The IV `encrypt` uses comes from the entropy source at the object's first use and afterwards only from the
+object's own encryption chain (last block of the CBC text it produced); it is never a function of data
+supplied to `decrypt`: after ANY sequence of decryptions of ANY (client supplied) cipher texts, `encrypt`
+produces exactly the cipher text, and leaves exactly the encryption IV, it would have without them.
+(The two IV members of the cbc object are modelled in C16 as well: `Cppcms.C16.Props.cbc_interleaved_calls`.)
+Which IV member `encrypt`/`decrypt` use is generated from `src/aes.cpp` (`Gen.cbcEncIvSlot/cbcDecIvSlot`). -/
+theorem encrypt_iv_independent_of_prior_decrypt (C : CbcAlg) (M : MacAlg) (ck mk : Bytes) (st : AesSt)
+    (cs : List Bytes) (p : Bytes) :
+    let st' := cs.foldl (fun s c => (aesDecrypt C M ck mk s c).2) st
+    (aesEncrypt C M ck mk st' p).1 = (aesEncrypt C M ck mk st p).1 ∧
+    (aesEncrypt C M ck mk st' p).2.ivEnc = (aesEncrypt C M ck mk st p).2.ivEnc ∧
+    (∀ e, (aesLoad none e).1.ivEnc = e.take 16) := by
+  have hfold : ∀ (cs : List Bytes) (s : AesSt),
+      (cs.foldl (fun s c => (aesDecrypt C M ck mk s c).2) s).ivEnc = s.ivEnc := by
+    intro cs
+    induction cs with
+    | nil => intro s; rfl
+    | cons c cs ih => intro s; rw [List.foldl_cons, ih, decrypt_keeps_ivEnc]
+  obtain ⟨h1, h2⟩ := encrypt_reads_ivEnc_only C M ck mk _ st p (hfold cs st)
+  exact ⟨h1, h2, fun e => rfl⟩
+
+
 /-! ## configuration -/
 
 theorem hmacCipherNew_ok (algo : String) (key : Bytes) (e : EncCfg) (h : hmacCipherNew algo key = .ok e) :
